@@ -6,9 +6,11 @@ import Operon.Model.Telomere
                                                           a new world: clock 0, one lifecycle in slot 0, selected
   new k maxOps errThr allowRenew lifeQ|none idleQ|none   construct a lifecycle NOW in slot k (replacing), select it
   use k                                                  select slot k (constructed now with the case's cfg if empty)
+  tickd | tickk c | renewd | renewk n|none r | apor      other call forms (bare call = defaults read from the signatures)
+  set thr n | set allow b | set life q|none | set idle q|none   public configuration attribute re-assigned
   start | tick c | err | hb | timeouts | renew n|none r | apo | term | rst | adv us     (`rst` = Telomere.reset(); a `reset` line separates cases)
 
-  observation: ret phase length errors ops renewals reason age [events] lockTrace ## tag
+  observation: ret phase length errors ops renewals reason age [events] lockTrace is_operational is_active time_remaining ops_remaining ## tag
   A call whose lock-event path is stuck under the extracted lock kind prints `hang`; afterwards the object is
   abandoned (`dead`). -/
 open Operon Operon.Proto Operon.Telomere
@@ -41,6 +43,10 @@ def showState (s : State) : String :=
   joinSp [showPhase s.phase, toString s.length, toString s.errors, toString s.ops, toString s.renewals,
     showReason s.reason, match s.started with | none => "-" | some t0 => toString (s.now - t0)]
 
+def showAcc (cfg : Cfg) (s : State) : String :=
+  joinSp [showBool (isOperational s), showBool (isActive s),
+    match timeRemaining cfg s with | none => "-" | some t => toString t, toString (opsRemaining s)]
+
 def optQ (s : String) (unit : Nat) : Option Nat :=
   if s = "none" then none else
     let q := natD s
@@ -58,13 +64,33 @@ def parseOp : List String → Option Op
   | ["term"] => some .term
   | ["rst"] => some .reset
   | ["adv", us] => us.toNat?.map .adv
+  -- the other call forms: tick(), tick(cost=c), renew(), renew(reset_errors=r, amount=n), trigger_apoptosis(reason=…);
+  -- a bare call uses the defaults read from the signatures on this run
+  | ["tickd"] => Gen.TelomereConsts.tickDefaultCost.map .tick
+  | ["tickk", c] => c.toNat?.map .tick
+  | ["renewd"] =>
+    match Gen.TelomereConsts.renewDefaultAmount, Gen.TelomereConsts.renewDefaultReset with
+    | some a, some r => some (.renew a r)
+    | _, _ => none
+  | ["renewk", n, r] =>
+    if n = "none" then some (.renew none (boolOf r)) else n.toNat?.map fun a => .renew (some a) (boolOf r)
+  | ["apor"] => some .apo
+  | _ => none
+
+/-- `set what value`: the re-assigned configuration -/
+def parseSet (what v : String) : Option (Cfg → Cfg) :=
+  match what with
+  | "thr" => v.toNat?.map fun n => fun c => { c with errThr := n }
+  | "allow" => v.toNat?.map fun _ => fun c => { c with allowRenew := v = "1" }
+  | "life" => if v = "none" then some fun c => { c with life := none } else v.toNat?.map fun _ => fun c => { c with life := optQ v 900000000 }
+  | "idle" => if v = "none" then some fun c => { c with idle := none } else v.toNat?.map fun _ => fun c => { c with idle := optQ v 15000000 }
   | _ => none
 
 def parseCfg (m e a l i : String) : Cfg := ⟨natD m, natD e, boolOf a, optQ l 900000000, optQ i 15000000⟩
 
 def showSlot (w : World) (k : Nat) : String :=
   match w.get k with
-  | some i => joinSp ["-", showState i.st, "[]", "-"]
+  | some i => joinSp ["-", showState i.st, "[]", "-", showAcc i.cfg i.st]
   | none => "bad-op"
 
 def step' (d : DSt) (toks : List String) : DSt × String :=
@@ -89,6 +115,13 @@ def step' (d : DSt) (toks : List String) : DSt × String :=
       | none =>
         let w := (stepW d.w (.new k d.cfg)).1
         ({ d with w := w, cur := k }, showSlot w k ++ " ## use:fresh")
+  | ["set", what, v] =>
+    match parseSet what v with
+    | none => (d, "bad-op")
+    | some f =>
+      if d.dead.contains d.cur then (d, "dead") else
+      let w := recfgW d.w d.cur f
+      ({ d with w := w }, showSlot w d.cur ++ " ## set")
   | _ =>
     match parseOp toks with
     | none => (d, "bad-op")
@@ -97,14 +130,14 @@ def step' (d : DSt) (toks : List String) : DSt × String :=
       match stepW d.w (.on d.cur op) with
       | (w, none) =>
         match op with
-        | .adv _ => ({ d with w := w }, match w.get d.cur with
-            | some i => joinSp ["-", showState i.st, "[]", "-"] ++ " ## adv"
-            | none => "bad-op")
+        | .adv _ => ({ d with w := w }, showSlot w d.cur ++ " ## adv")
         | _ => (d, "bad-op")
       | (w, some o) =>
         if lockRun genKind 0 o.lock then
+          let cfg := match w.get d.cur with | some i => i.cfg | none => d.cfg
           ({ d with w := w },
-            joinSp [showRet o.ret, showState o.st, showList (o.evs.map showEv), showLock o.lock] ++ " ## " ++ o.tag)
+            joinSp [showRet o.ret, showState o.st, showList (o.evs.map showEv), showLock o.lock, showAcc cfg o.st]
+              ++ " ## " ++ o.tag)
         else ({ d with dead := d.cur :: d.dead }, "hang ## hang:" ++ o.tag)
 
 def main : IO Unit := runDriver ({} : DSt) step'
